@@ -354,7 +354,7 @@ def check(pm: ProgramModel, ctx: Ctx) -> None:
               loc(anc.unit.path, anc.node), "the ancestors operation reports the ancestors of the "
               "feature set for the current execution", bad=f"FMFeatureAncestors returns {r!r}")
     from .c19 import op_sequences
-    op_sequences(pm, ctx, ModelBuilder(pm), [pm.cls(n_) for n_ in ('FMCountLeafs', 'FMLeafFeatures', 'FMMaxDepthTree', 'FMAverageBranchingFactor', 'FMVariationPoints', 'FMFeatureAncestors') if pm.has_cls(n_)], "C16")
+    op_sequences(pm, ctx, ModelBuilder(pm), [pm.cls(n_) for n_ in ('FMFeatureAncestors',) if pm.has_cls(n_)], "C16")
     ctx.floor(rule, "obligations", len(ctx.obligations), 40)
 
 
